@@ -44,6 +44,20 @@ func runHeld(h *heldScript, line string, ns string) (lexgen.Observation, []strin
 	var monitors []string
 	msg := hlib.Recover(func() {
 		ll := verifhooks.NewLineLexer(h.Est)
+		// ONE receive buffer for the whole script, refilled for every batch (datagram) as the
+		// server's receiver does: batch k overwrites batch k-1 at the same offsets, so anything
+		// the lexer kept pointing into the buffer (instead of copying) now reads other bytes.
+		size := len(line) + 1
+		for _, b := range h.Batches {
+			n := 0
+			for _, l := range b {
+				n += len(l) + 1
+			}
+			if n+len(line) > size {
+				size = n + len(line) + 1
+			}
+		}
+		recv := make([]byte, size)
 		for bi := 0; bi <= h.B && bi < len(h.Batches); bi++ {
 			lines := make([]string, len(h.Batches[bi]))
 			for i, l := range h.Batches[bi] {
@@ -52,8 +66,9 @@ func runHeld(h *heldScript, line string, ns string) (lexgen.Observation, []strin
 			if bi == h.B && h.I < len(lines) {
 				lines[h.I] = line
 			}
-			// one datagram buffer, lines handed to the lexer as sub-slices of it
-			buf := []byte(strings.Join(lines, "\n"))
+			// the datagram is copied into the receive buffer; lines are handed to the lexer as
+			// sub-slices of it (their capacity reaches to the end of the buffer, as in the parser)
+			buf := recv[:copy(recv, strings.Join(lines, "\n"))]
 			held := make([]heldResult, len(lines))
 			off := 0
 			for i, l := range lines {
@@ -168,12 +183,95 @@ type heldLine struct {
 	class string
 }
 
+// rate strings by length, valid and invalid, for refilled datagrams whose '@' fields keep their
+// offsets and lengths from one datagram to the next
+var validRates = map[int][]string{
+	1: {"1", "2", "5", "3"},
+	2: {".5", ".1", "1.", "2.", ".2"},
+	3: {"0.5", "0.1", "0.2", "1.0", "2.5", "1e0", "1e1", "0.9"},
+	4: {"0.25", "0.05", "0.75", "1e-3", "0.50", "1.00", "+0.5"},
+	5: {"0.125", "0.001", "1.000", "0.5e0", "+0.25"},
+}
+var invalidRates = map[int][]string{
+	0: {""},
+	1: {"0", "x", "."},
+	2: {"0x", "-1", "1e", ".0"},
+	3: {"0.x", "nan", "0.0", "inf", "-.5"},
+	4: {"0.0x", "+inf", "-1e3", "0.00", "-0.5"},
+	5: {"0.12x", "-0.25", "0.000", "+-0.5"},
+}
+
+// rateOfLen draws a rate string of length n (valid 3 times out of 4 when one exists).
+func rateOfLen(r *hlib.Rand, n int) string {
+	if v := validRates[n]; len(v) > 0 && r.Chance(3, 4) {
+		return hlib.Pick(r, v)
+	}
+	return hlib.Pick(r, invalidRates[n])
+}
+
+type rateLine struct {
+	pre, post string
+	rates     []string // '@' fields, in order, each followed by post
+}
+
+func (l rateLine) render() string {
+	s := l.pre
+	for _, rt := range l.rates {
+		s += "|@" + rt + l.post
+	}
+	return s
+}
+
+// refillScript: 4-8 datagrams of 1-5 lines; each datagram is the previous one with some rate
+// strings replaced, mostly by strings of the SAME length (same offsets in the receive buffer).
+func refillScript(r *hlib.Rand) [][]heldLine {
+	n := 1 // half of the scripts are one-line datagrams
+	if r.Bool() {
+		n = r.Range(2, 5)
+	}
+	cur := make([]rateLine, n)
+	for i := range cur {
+		cur[i] = rateLine{
+			pre:  hlib.Pick(r, []string{"a", "req.count", "x/y z", "m" + strconv.Itoa(r.Intn(100))}) + ":" + strconv.Itoa(r.Range(1, 99)) + "|" + hlib.Pick(r, []string{"c", "c", "ms", "g", "h"}) + hlib.Pick(r, []string{"", "", "|#a", "|#a,b:c"}),
+			post: hlib.Pick(r, []string{"", "", "|#t", "|#t:1,u"}),
+		}
+		for k := r.Range(1, 2); k > 0; k-- {
+			cur[i].rates = append(cur[i].rates, rateOfLen(r, r.Range(1, 5)))
+		}
+	}
+	var all [][]heldLine
+	for b, nb := 0, r.Range(4, 8); b < nb; b++ {
+		batch := make([]heldLine, n)
+		for i := range cur {
+			batch[i] = heldLine{cur[i].render(), "refill-rate"}
+		}
+		all = append(all, batch)
+		for i := range cur { // next datagram
+			for k := range cur[i].rates {
+				switch c := r.Intn(8); {
+				case c < 5: // same length, another string
+					cur[i].rates[k] = rateOfLen(r, len(cur[i].rates[k]))
+				case c < 6: // another length
+					cur[i].rates[k] = rateOfLen(r, r.Range(0, 5))
+				}
+			}
+			rates := append([]string(nil), cur[i].rates...)
+			cur[i].rates = rates
+		}
+	}
+	return all
+}
+
 // heldScriptGen draws a script and returns one (script, line, class) per line of every batch.
 func heldScriptGen(r *hlib.Rand) []input {
 	est := hlib.Pick(r, []int{0, 1, 2, 4, 8})
 	nb := r.Range(2, 4)
 	var all [][]heldLine
-	for b := 0; b < nb; b++ {
+	if r.Bool() {
+		all = refillScript(r)
+		nb = len(all)
+	}
+	for b := 0; b < nb && len(all) < nb; b++ {
 		n := r.Range(2, 12)
 		batch := make([]heldLine, n)
 		for i := range batch {
